@@ -263,6 +263,20 @@ def rule_pure(ctx: Ctx) -> None:
             if mname in ("__init__", "__post_init__"):
                 continue
             tracked = {"self"} | {p.arg for p in fn.params if p.annotation is not None and any(w in ast.unparse(p.annotation) for w in ("Sweep", "dict", "list"))}
+            if mname.startswith("_") and not mname.startswith("__"):
+                # a private helper's container parameter is an operand only if some caller hands it something that is
+                # reachable from that caller's receiver / operands (a freshly built dict is the helper's to fill)
+                from ..flow import bind_args
+
+                def handed_operand(pname: str, fn=fn) -> bool:
+                    for site in ctx.cg.call_sites_of(fn.qualname):
+                        a = bind_args(site.node, fn).get(pname)
+                        ctr = {"self"} | {q.arg for q in site.caller.params if q.annotation is not None and any(w in ast.unparse(q.annotation) for w in ("Sweep", "dict", "list"))}
+                        if a is None or Alias(site.caller, ctr).mutated_owner(a):
+                            return True
+                    return False
+
+                tracked = {"self"} | {p_ for p_ in tracked - {"self"} if "Sweep" in ast.unparse(next(q.annotation for q in fn.params if q.arg == p_)) or handed_operand(p_)}
             if mname in ("combine",) and cname == "MultiSweep":
                 continue  # documented in-place operation of MultiSweep
             n += 1
